@@ -18,7 +18,7 @@ from .. import rng as _rng
 ID = "C38"
 LEVEL = "fault_enumeration"
 TIERS = {
-  "quick": {"runs": 64, "chunk": 4, "budget_s": 480, "timeout_s": 400},
+  "quick": {"runs": 48, "chunk": 3, "budget_s": 420, "timeout_s": 400},
   "thorough": {"runs": 256, "chunk": 4, "budget_s": 1800, "timeout_s": 600},
 }
 RULE = ("one evaluation = one (step, capacity value or reference pair, world) comparison along a lock-step history; per run nvmax is enumerated "
@@ -52,6 +52,7 @@ def gen(seed, idx, tier):
     "init": {"seed": int(r.integers(1 << 30)), "pos_noise": 0.03, "vel_noise": 0.2},
     "hist_seed": int(r.integers(1 << 30)), "K": int(r.integers(20, 45)) if tier != "thorough" else int(r.integers(25, 90)), "kick_p": float(r.choice([0.02, 0.05, 0.1])),
     "value_seed": int(r.integers(1 << 30)),
+    "wake_script": bool(_rng.gen("c38script", seed, idx).random() < 0.5), "settle": int(_rng.gen("c38settle", seed, idx).integers(25, 45)),
   }  # fmt: skip
 
 
@@ -77,10 +78,15 @@ def run(sc):
   import mujoco_warp as mjw
 
   spec_s = dict(sc["model"], opt=dict(sc["model"]["opt"], sleep=True))
+  if sc.get("wake_script"):
+    spec_s["opt"]["sleep_tolerance"] = 5.0  # everything that may sleep does so after MINAWAKE steps: the script decides who is awake
   spec_n = dict(sc["model"], opt=dict(sc["model"]["opt"]))
   mjm, ms = core.make_model(spec_s)
   _, mn = core.make_model(spec_n)
   nworld, K, nv = sc["nworld"], sc["K"], mjm.nv
+  if sc.get("wake_script"):
+    sc = dict(sc, kick_p=0.0)  # only the scripted wakes: the scene settles, sleeps, and single trees are woken one after the other
+    K += int(sc.get("settle", 0))
   stats = {"evaluations": 0, "nontrivial": [], "faults": {}, "skipped": {}, "sim_time": 0.0, "sets": {}}
   faults = stats["faults"]
 
@@ -107,6 +113,10 @@ def run(sc):
       keep = {0, nv - 1, nv}
       rest = [v for v in values if v not in keep]
       values = sorted(keep | {rest[i] for i in r.choice(len(rest), size=5, replace=False)})
+  if sc.get("wake_script"):
+    # capacities that hold one woken tree but not the whole model, including the largest ones whose padded size stays below nv
+    tnv = np.bincount(mjm.dof_treeid[mjm.dof_treeid >= 0], minlength=mjm.ntree)
+    values = sorted({v for v in (int(tnv.max()), int(tnv.max()) + 1, min(15, nv - 1), min(31, nv - 1), nv - 1) if 1 <= v <= nv})
   C = {c: mk(ms, c) for c in values}
   alive = {c: [True] * nworld for c in values}
   cxs = [core.Ctx(mjm, mn, N), core.Ctx(mjm, ms, A)] + [core.Ctx(mjm, ms, C[c]) for c in values]
@@ -114,8 +124,26 @@ def run(sc):
   jac = sc["model"]["opt"].get("jacobian")
   cone = sc["model"]["opt"].get("cone")
   n_lockstep = True  # N stays comparable with A only while their states agree (they are re-synchronised each step from A)
+  import mujoco as _mj
+
+  never = np.array([int(p_) in (int(_mj.mjtSleepPolicy.mjSLEEP_AUTO_NEVER), int(_mj.mjtSleepPolicy.mjSLEEP_NEVER)) for p_ in mjm.tree_sleep_policy])
+  next_kick = [mjm.ntree - 1] * nworld
   for k in range(K):
     ops = _ops(sc, mjm, nworld, k)
+    if sc.get("wake_script"):
+      # scripted active sets: whenever every tree of a world sleeps, one tree is kicked awake, alternately the last one (highest DOF
+      # addresses) and the first one: small active sets that sit at high / low addresses, one after the other in the same Data
+      ta = A.tree_asleep.numpy()
+      sleepable = [t_ for t_ in range(mjm.ntree) if not never[t_]]
+      for w in range(nworld):
+        if sleepable and all(ta[w][t_] >= 0 for t_ in sleepable):
+          t = next_kick[w] if next_kick[w] in sleepable else sleepable[-1]
+          v = np.zeros(mjm.nv)
+          sel = mjm.dof_treeid == t
+          v[sel] = _rng.gen("c38kick", sc["hist_seed"], k, w).normal(0, 0.6, int(sel.sum()))
+          ops.append(["kick", w, [round(float(x), 4) for x in v]])
+          next_kick[w] = sleepable[0] if t != sleepable[0] else sleepable[-1]
+          fault("scripted_wake_of_one_tree")
     for cx in cxs:
       for op in ops:
         core.apply_op(cx, op)
